@@ -11,7 +11,8 @@ Inductive case :=
 | CClose  (cs : list comp) (ev : list event) (errs : list nat)
 | CLookupName (chain : list (list comp)) (name : N) (res : option (nat * nat))
 | CLookupKind (chain : list (list comp)) (kind : N) (res : option (nat * nat))
-| CLookupSeq (depth : nat) (ops : list lop) (res : list (option (nat * nat))).
+| CLookupSeq (depth : nat) (ops : list lop) (res : list (option (nat * nat)))
+| CLife (ops : list hop) (obs : list (list event * hres)).
 
 Definition model_ok (c : case) : bool :=
   match c with
@@ -22,6 +23,7 @@ Definition model_ok (c : case) : bool :=
   | CLookupName chain n res => opt_pair_eqb (lookup (by_name n) chain 0) res
   | CLookupKind chain k res => opt_pair_eqb (lookup (by_kind k) chain 0) res
   | CLookupSeq d ops res => opt_list_eqb (run_lops (repeat [] d) ops) res
+  | CLife ops obs => hops_eqb (run_hops [] ops) obs
   end.
 
 Definition spec_ok (c : case) : bool :=
@@ -31,6 +33,7 @@ Definition spec_ok (c : case) : bool :=
   | CLookupName chain n res => spec_C20_lookup (by_name n) chain res
   | CLookupKind chain k res => spec_C20_lookup (by_kind k) chain res
   | CLookupSeq d ops res => spec_C20_lops d ops res
+  | CLife ops obs => spec_C20_hops [] ops obs
   end.
 
 Fixpoint check_from (i : N) (l : list case) : list (N * N) :=
